@@ -30,7 +30,7 @@ LEVEL = "fault_enumeration"
 SHARDS = {"quick": 8, "thorough": 16}
 TIMEOUT_S = {"quick": 900, "thorough": 3600}
 BUDGET_S = {"quick": 150, "thorough": 1800}
-RULE = ("scenarios = {seed, event-queue (LLSD and garbage body), wrapper, proxy-only, temporary, plain asset, login, upload, "
+RULE = ("scenarios = {seed, event-queue (LLSD and garbage body), wrapper, asset served by the local repo, proxy-only, temporary, plain asset, login, upload, "
         "unknown URL} x {request, response} x addon behaviours {ignore, take and release later, take and resume inside the hook, "
         "resume inside the hook, take then raise, inject response, rewrite URL, raise, retarget cap data, disable streaming, "
         "return True}; each scenario is run once cleanly and once per function entered inside the handlers (failpoint raising "
@@ -44,7 +44,7 @@ ASSUMPTIONS = [
     "an exception escaping pump_proxy_event is tolerated (the run loop logs and continues) as long as the flow is handed back",
 ]
 MUST_REACH = {"scenarios": 40, "failpoint_runs": 500, "clean_runs": 40, "taken_flows_released": 30, "state_transfers_compared": 500,
-              "exceptions_escaped_pump": 50, "mitm_side_runs": 6, "e2e_runs": 100, "e2e_states_compared": 150, "session_only_capdata": 5}
+              "exceptions_escaped_pump": 50, "mitm_side_runs": 6, "e2e_runs": 100, "e2e_states_compared": 150, "session_only_capdata": 5, "locally_served_assets": 3}
 
 FAIL = {"armed_at": None, "count": 0, "in_handler": 0, "points": [], "fired": None}
 TOOL_ID = 3
@@ -171,7 +171,7 @@ class FlowAddon:
 
 # ------------------------------------------------------------------ scenarios
 
-URL_KINDS = ["seed", "eq", "eq_garbage", "wrapper", "proxy_only", "temporary", "asset", "login", "upload", "unknown"]
+URL_KINDS = ["seed", "eq", "eq_garbage", "wrapper", "served", "proxy_only", "temporary", "asset", "login", "upload", "unknown"]
 BEHAVIOURS = ["ignore", "take", "take_resume_now", "resume_now", "take_then_raise", "inject_response", "rewrite_url", "raise", "retarget", "no_stream", "true"]
 
 
@@ -202,6 +202,11 @@ def build(rig, kind, event_type):
     elif kind == "wrapper":
         flow = make_flow(wrapper + "/?texture_id=" + str(UUID(int=5)))
         resp = b"\x00\x01texturedata"
+    elif kind == "served":
+        # an asset the proxy itself holds: the local asset repo answers, nobody else sees the request
+        aid = rig.session_manager.asset_repo.create_asset(b"HV-LOCAL-ASSET-BYTES")
+        flow = make_flow(wrapper + "/?texture_id=" + str(aid))
+        resp = b"never"
     elif kind == "proxy_only":
         flow = make_flow(proxy_only + "/do")
         resp = b"never"
@@ -336,6 +341,14 @@ def run_scenario(ctx, kind, event_type, behaviour, armed_at):
                         ctx.violation("state-transfer-changed:" + field, "flow state changed across the process boundary",
                                       dict(wit, field=field, before=repr(want[field])[:300], after=repr(got[field])[:300]))
                         break
+        if kind == "served" and event_type == "request" and armed_at is None and callbacks:
+            ctx.count("locally_served_assets")
+            st = callbacks[-1][2]
+            back = HippoHTTPFlow.from_state(copy.deepcopy(st), rig.session_manager)
+            if back.response is None or bytes(back.response.content or b"") != b"HV-LOCAL-ASSET-BYTES" or not back.response_injected:
+                ctx.violation("served-asset-response-lost", "the response the local asset repo injected did not survive the hand-back",
+                              dict(wit, response=None if back.response is None else bytes(back.response.content or b"")[:40],
+                                   injected=back.response_injected))
         ctx.ev()
         return list(FAIL["points"])
     finally:
